@@ -53,16 +53,41 @@ def gen_layout(rnd, tier):
     return {"dw": dw, "aw": aw, "regs": regs, "ov": ov}
 
 
+def vary_use(ru, cfg):
+    """Two ways of using the multiplexer that leave the layout's meaning alone (a random stream of their own):
+    `late` = the last k registers are added to the memory map after the Multiplexer has been constructed and
+    before it is elaborated (the map is not frozen by the constructor); a lifted layout = the whole register
+    block moved to a base address of 257 or more in a wider address space (addresses that are not small
+    integers)."""
+    if ru.random() < 0.25:
+        cfg["late"] = ru.randint(1, len(cfg["regs"]))
+    if ru.random() < 0.2:
+        aw = ru.randint(9, 11)
+        span = max(r[1] for r in cfg["regs"])
+        base = ru.choice([256, 257, 260, 512, 1 << (aw - 1), ru.randrange(257, (1 << aw) - span)])
+        base = min(base, (1 << aw) - span)
+        cfg["aw"] = aw
+        for r in cfg["regs"]:
+            r[0] += base; r[1] += base
+
+
 def gen_stim(rnd, cfg, T, kind):
     dw, aw, regs = cfg["dw"], cfg["aw"], cfg["regs"]
     stim = []
     nreg = len(regs)
 
+    lo, hi = min(r[0] for r in regs), max(r[1] for r in regs)
+
+    def raddr():
+        if aw > 6 and rnd.random() < 0.8:           # a lifted layout: stay near the register block
+            return min((1 << aw) - 1, max(0, rnd.randint(lo - 2, hi + 1)))
+        return rnd.randrange(1 << aw)
+
     def rvals():
         return [rnd.randrange(1 << r[2]) if r[2] else 0 for r in regs]
     if kind == "random":
         for _ in range(T):
-            stim.append([rnd.randrange(1 << aw), rnd.randrange(2), rnd.randrange(2), rnd.randrange(1 << dw), rvals()])
+            stim.append([raddr(), rnd.randrange(2), rnd.randrange(2), rnd.randrange(1 << dw), rvals()])
         return stim
     while len(stim) < T:
         k = rnd.random()
@@ -74,7 +99,7 @@ def gen_stim(rnd, cfg, T, kind):
             for a in range(s, s + upto):
                 stim.append([a, int("r" in tk), int("w" in tk), rnd.randrange(1 << dw), rvals()])
                 if rnd.random() < 0.25:
-                    stim.append([rnd.randrange(1 << aw), 0, 0, rnd.randrange(1 << dw), rvals()])
+                    stim.append([raddr(), 0, 0, rnd.randrange(1 << dw), rvals()])
                 if rnd.random() < 0.1:
                     s2, e2 = rnd.choice(regs)[:2]
                     a2 = rnd.randrange(s2, e2)
@@ -83,15 +108,16 @@ def gen_stim(rnd, cfg, T, kind):
                     elif tk == "w":
                         stim.append([a2, 1, 0, 0, rvals()])
         elif k < 0.8:
-            stim.append([rnd.randrange(1 << aw), rnd.randrange(2), rnd.randrange(2), rnd.randrange(1 << dw), rvals()])
+            stim.append([raddr(), rnd.randrange(2), rnd.randrange(2), rnd.randrange(1 << dw), rvals()])
         else:
-            stim.append([rnd.randrange(1 << aw), 0, 0, rnd.randrange(1 << dw), rvals()])
+            stim.append([raddr(), 0, 0, rnd.randrange(1 << dw), rvals()])
     return stim[:T]
 
 
 def gen_case(seed, tier, idx):
     rnd = mkrnd(seed, "mux", idx)
     cfg = gen_layout(rnd, tier)
+    vary_use(mkrnd(seed, "mux-use", idx), cfg)
     kind = ["txn", "txn", "txn", "random", "random"][idx % 5]
     T = rnd.choice([200, 300]) if tier == "quick" else rnd.choice([300, 600])
     case = {"engine": "mux", "kind": kind, "cfg": cfg, "stim": gen_stim(rnd, cfg, T, kind)}
@@ -190,12 +216,17 @@ def build(cfg):
             return Module()
     mm = MemoryMap(addr_width=cfg["aw"], data_width=cfg["dw"])
     regs = []
+    mux = None
+    early = len(cfg["regs"]) - cfg.get("late", 0)
     for i, (s, e, w, rd, wr) in enumerate(cfg["regs"]):
+        if i == early:
+            mux = csr.Multiplexer(mm, shadow_overlaps=cfg["ov"])
         r = Reg(w, ("r" if rd else "") + ("w" if wr else ""))
         got = mm.add_resource(r, name=(f"r{i}",), addr=s, size=e - s)
         assert got == (s, e), (got, s, e)
         regs.append(r)
-    mux = csr.Multiplexer(mm, shadow_overlaps=cfg["ov"])
+    if mux is None:
+        mux = csr.Multiplexer(mm, shadow_overlaps=cfg["ov"])
     return mux, regs
 
 
